@@ -290,10 +290,15 @@ def run_history(case, alphabet, check_mirror):
     if case.get("fdflt"):
         dflt = float(dflt)      # the same default as a float: other copy / boxing paths in the library
     rng = random.Random(case["hseed"])
-    root = H.build_fiber(case["t"], depth, dflt)
+    cfg = case.get("cfg") or {}
+    owned = case["kind"] == "owned"
+    root = H.build_fiber(case["t"], depth, 0 if (owned and cfg.get("fib0") and not case.get("fdflt")) else dflt)
     tensor = None
-    if case["kind"] == "owned":
-        tensor = ft.Tensor.fromFiber(rank_ids=[f"R{depth - 1 - k}" for k in range(depth)], fiber=root, default=dflt)
+    if owned:
+        ids = [f"R{depth - 1 - k}" for k in range(depth)]
+        tensor = ft.Tensor.fromFiber(rank_ids=ids, fiber=root, default=dflt, shape=cfg.get("shape"))
+        for rid, fm in zip(ids, cfg.get("fmt", [])):
+            tensor.setFormat(rid, fm)
         root = tensor.getRoot()
     steps = []
     structural = case.get("mode") == "structural"
